@@ -40,12 +40,18 @@ def run_uniform(case, ctx, mon):
     cols = np.zeros((n, d), np.int64)
     seen = set()
     i = 0
+    lo, hi = case.get("key_len", (1, 24))
+    if fam == "hh":
+        cfg["max_key_len"] = min(max(24, hi), 255)
+        pr = state.NativeProber(cfg)
     while i < n:
-        ln = int(rng.integers(1, 25))
-        k = bytes(rng.integers(0, 256, ln, dtype=np.uint8))
+        ln = int(rng.integers(lo, hi + 1))
+        k = rng.bytes(ln)
         if k in seen:
             continue
-        seen.add(k)
+        seen.add(k if ln <= 64 else hash(k))
+        if ln > 64:
+            pr.cache.clear()
         try:
             cols[i] = pr.cells(k)
         except state.Prober.ProbeAnomaly as exc:
@@ -70,6 +76,7 @@ def run_uniform(case, ctx, mon):
             mon.count("row_pairs_tested")
             mon.seen("row_pair", f"{fam}:{a}-{b}")
     mon.count("uniform_cases")
+    mon.seen("key_length_class", "1..24" if hi <= 24 else ("25..300" if hi <= 300 else ("301..2000" if hi <= 2000 else ">=4096")))
     mon.seen("family", fam)
     mon.nontrivial(d >= 2)
 
@@ -177,6 +184,11 @@ def gen_cases(ctx):
         for j, (w, d) in enumerate(((48, 3), (100, 5), (7, 6), (96, 7))):
             fam = fams[(j + rep) % 4]
             yield {"type": "uniform", "family": fam, "width": w, "depth": min(d, 8), "n_keys": 20000 if w < 64 else 40000, "seed": int(rng.integers(0, 2**62))}
+        # long keys (length-gated hashing shortcuts start somewhere): 200-300, ~1000 and 4096+ bytes, rotating over the families
+        for j, kl in enumerate(((200, 300), (1000, 1100), (4096, 4300), (8192, 8200))):
+            fam = [f for f in fams if f != "hh"][(j + rep) % 3] if kl[1] > 255 else fams[(j + rep) % 4]
+            yield {"type": "uniform", "family": fam, "width": 16, "depth": 8, "n_keys": 8000 if kl[1] < 2000 else 5000, "key_len": list(kl),
+                   "seed": int(rng.integers(0, 2**62))}
         for fam in fams:
             yield {"type": "collide", "family": fam, "width": 32, "depth": 8, "pairs": 12 if q else 40, "seed": int(rng.integers(0, 2**62))}
         for w in (32, 64, 128):
@@ -201,6 +213,7 @@ def replay(case, ctx, mon):
 def floors(mon, ctx):
     mon.floor("row pairs of a depth-8 linear sketch", len([x for x in mon.classes["row_pair"] if x.startswith("linear:")]), 28)
     mon.floor("families probed", len(mon.classes["family"]), 4)
+    mon.floor("key length classes probed for uniformity and independence", len(mon.classes["key_length_class"]), 4)
     mon.floor("families probed with constructed one-row collisions", len(mon.classes["collide_family"]), 4)
     mon.floor("constructed pairs that shared the targeted row", mon.counters["constructed_pairs_sharing_the_targeted_row"], 100)
     mon.floor("zipf widths", len(mon.classes["zipf_width"]), 3)
